@@ -202,4 +202,102 @@ bridge is closed (deferred `bridge.Close`) and the map entry deleted. -/
 def Bridge.lifecycleEnd (b : Bridge) : Bridge :=
   if b.finished then { b with closed := true, removed := true } else b
 
+/-! ### Source re-attachment (`handleExistingBridge` → `Bridge.SetSourceConnection`)
+
+The source end of a running tunnel may reconnect: the server installs a new source forwarder while
+the `source->target` goroutine of `Bridge.Start` is still copying from the old one.  When that copy
+returns, the goroutine looks at the installed forwarder again and goes on with the new one; the
+`target->source` goroutine writes through `dynamicSourceWriter`, i.e. to whatever forwarder is
+installed at the moment of each `Write`. -/
+
+/-- One source connection: its read script (followed by EOF) and the number of its read events after
+which the next connection is installed (`SetSourceConnection`). -/
+structure SrcGen where
+  reads : List ReadEv
+  attachAt : Nat := 0
+deriving DecidableEq, Repr
+
+/-- What one `CopyWithControl` call of the source loop hands to the next: the target keeps what it
+received and the shared counter its value; `total` and `batchCounter` are locals of each call. -/
+def nextCall (st : St) : St := { delivered := st.delivered, total := 0, batch := 0, counter := st.counter }
+
+/-- Rest of the destination's write script when `copyFrom` returns. -/
+def wsAfter (l : Limiter) : Nat → Bool → List ReadEv → List WriteEv → St → List WriteEv
+  | _, _, [], ws, _ => ws
+  | chk, canc, ev :: rs, ws, st =>
+    if chk + 1 ≥ cloudconst.ContextCheckInterval ∧ canc then ws
+    else
+      match (iter l ev ws st).stop with
+      | some _ => (iter l ev ws st).ws
+      | none =>
+        wsAfter l (if chk + 1 ≥ cloudconst.ContextCheckInterval then 0 else chk + 1) (canc || ev.cancelled)
+          rs (iter l ev ws st).ws (iter l ev ws st).st
+
+/-- Was the bridge context cancelled while a copy that left `rest` unread was running? -/
+def cancelledIn (rs rest : List ReadEv) : Bool := (rs.take (rs.length - rest.length)).any (·.cancelled)
+
+/-- Did the copy from connection `g` get as far as issuing the `Read` that follows `attachAt` read
+events — the call during which the next connection is installed?  (Not if an error, a short write or
+a cancellation ended the copy earlier, or the script is shorter.) -/
+def reachedAttach (l : Limiter) (g : SrcGen) (ws : List WriteEv) (st : St) : Bool :=
+  decide ((copy l (g.reads.take g.attachAt) ws (nextCall st)).2.1 = .eof) && decide (g.attachAt ≤ g.reads.length)
+
+/-- The `source->target` goroutine of `Bridge.Start`: copy from the installed source forwarder; when
+the copy returns and a newer forwarder has been installed meanwhile, loop — the loop head returns if
+the context is done — else `break`. -/
+def sourceLoop (l : Limiter) : List SrcGen → List WriteEv → St → St × Stop
+  | [], _, st => (st, .eof)
+  | [g], ws, st => ((copy l g.reads ws (nextCall st)).1, (copy l g.reads ws (nextCall st)).2.1)
+  | g :: g' :: gs, ws, st =>
+    if !reachedAttach l g ws st then
+      ((copy l g.reads ws (nextCall st)).1, (copy l g.reads ws (nextCall st)).2.1)
+    else if cancelledIn g.reads (copy l g.reads ws (nextCall st)).2.2 then ((copy l g.reads ws (nextCall st)).1, .ctx)
+    else sourceLoop l (g' :: gs) (wsAfter l 0 false g.reads ws (nextCall st)) (copy l g.reads ws (nextCall st)).1
+
+/-- Bytes the target had received each time the source loop reached the point where a source
+connection is replaced (or, for the last connection, would be): the thresholds that decide which
+source connection a byte sent by the target is written to. -/
+def pausePoints (l : Limiter) : List SrcGen → List WriteEv → St → List Nat
+  | [], _, _ => []
+  | g :: gs, ws, st =>
+    if reachedAttach l g ws st then
+      (copy l (g.reads.take g.attachAt) ws (nextCall st)).1.delivered.length ::
+        (if cancelledIn g.reads (copy l g.reads ws (nextCall st)).2.2 then []
+         else match gs with
+           | [] => []
+           | _ :: _ => pausePoints l gs (wsAfter l 0 false g.reads ws (nextCall st)) (copy l g.reads ws (nextCall st)).1)
+    else []
+
+/-- The target's read events in the order they fire, grouped by the pause during which they fire:
+an event gated on `after` received bytes fires once the target has received that many, and a gated
+event holds back the ones behind it. -/
+def splitFired : List Nat → List ReadEv → List (List ReadEv)
+  | [], _ => []
+  | d :: ds, evs => evs.takeWhile (fun e => decide (e.after ≤ d)) :: splitFired ds (evs.dropWhile (fun e => decide (e.after ≤ d)))
+
+/-! ### `Bridge.Close`: the endpoints first, the statistics backend last
+
+`Bridge.Close` tears the endpoints down and then calls `ManagerBase.Close`, which cancels the
+context and runs the clean handlers synchronously — the final traffic report, i.e. calls into the
+statistics backend (cloud control / storage).  The backend is external: it may take arbitrarily long. -/
+
+structure CloseObs where
+  srcClosed : Bool := false
+  tgtClosed : Bool := false
+  reported : Bool := false
+deriving DecidableEq, Repr
+
+/-- The effectful steps of `Bridge.Close` (selectors of the calls, in source order) executed against
+a backend that stalls (`stall`) or answers: a stalled `ManagerBase.Close` never returns, so nothing
+after it runs. -/
+def closeRun (stall : Bool) : List String → CloseObs → CloseObs
+  | [], o => o
+  | s :: rest, o =>
+    if s == "ManagerBase.Close" then (if stall then o else closeRun stall rest { o with reported := true })
+    else if s == "sourceForwarder.Close" || s == "sourceTunnelConn.Close" || s == "sourceConn.Close" then
+      closeRun stall rest { o with srcClosed := true }
+    else if s == "targetForwarder.Close" || s == "targetTunnelConn.Close" || s == "targetConn.Close" then
+      closeRun stall rest { o with tgtClosed := true }
+    else closeRun stall rest o
+
 end Tunnox.C02
